@@ -16,7 +16,9 @@ Norm(x) == [t |-> x.t, m |-> x.m, v |-> x.v]
 
 Judge(e) ==
   LET a == Norm(e.a) n == Len(e.bs) IN
-       Chk("c09.negate", Norm(e.neg) = Neg(a))
+       \* the constructors make what they are asked for (an infinite evaluation is still a heuristic value)
+       Chk("c09.constructed-score", a = Norm(e.want) /\ (e.heur = 1) = (e.want.t = "H"))
+  \cup Chk("c09.negate", Norm(e.neg) = Neg(a))
   \cup (IF e.incdom = 1 THEN Chk("c09.increment", Norm(e.inc) = Inc(a)) ELSE {})
   \cup Chk("c09.matedistance", e.md = MateDistance(a))
   \* taking the ply away again (DecrementMateDistance, the inverse used to shift search windows)
